@@ -143,6 +143,12 @@ where
             Err(p) => {
                 verif_rt::release_deferred();
                 let t = verif_rt::sched::panic_text(&p);
+                if t.contains("outside of a Shuttle test") || t.contains("ExecutionState::with` panicked") {
+                    // simulated primitives reached from a real OS thread the code
+                    // created itself: the simulator cannot run this tree
+                    eprintln!("HARNESS-ERROR: code under test left the simulator (real thread?): {t}");
+                    std::process::exit(2);
+                }
                 if t.contains("Cannot allocate memory") || t.contains("OutOfMemory") {
                     // the simulator itself ran out of a resource (coroutine
                     // stacks / mappings): a harness error, never a verdict
